@@ -234,7 +234,7 @@ func spell(c Call) (fp string, expect string) {
 	case "prefix-only":
 		return "sha256//", "malformed"
 	case "double-prefix":
-		return "sha256//sha256//" + good, "malformed"
+		return "sha256//sha256//" + good, "lenient" // not a documented spelling; an implementation may strip both
 	case "none":
 		return "", "unpinned"
 	}
@@ -485,7 +485,7 @@ func TestC13(t *testing.T) {
 	} else if ev.Replaying() {
 		t.Skip()
 	}
-	ev.RapidChecks(ev.Scale(320, 15000))
+	ev.RapidChecks(ev.Scale(3200, 60000))
 	rapid.Check(t, func(rt *rapid.T) {
 		c := genC13().Draw(rt, "case")
 		canon, _ := json.Marshal(c)
